@@ -19,7 +19,7 @@ What the Go code does, and this file reproduces:
   follows the last field inside the SEQUENCE** (asn1.go: "We allow extra bytes at the end of the
   SEQUENCE"); bytes after the SEQUENCE are returned as `rest`.
 -/
-namespace CTV.Der
+namespace CTV.DerSig
 open CTV
 
 /-- the `k` length octets of a long-form length (`acc` = value so far) -/
@@ -126,4 +126,4 @@ def derSigX (r s : Int) (extra : Bytes) : Bytes := tlv 0x30 (derInt r ++ derInt 
 /-- the DER encoding of an (EC)DSA signature value -/
 def derSig (r s : Int) : Bytes := derSigX r s []
 
-end CTV.Der
+end CTV.DerSig
